@@ -68,6 +68,14 @@ class C01:
                     continue
                 events.append(len(st.trace))
                 if st.exc is not None:
+                    if st.info.g_cyclic_trig:
+                        # a consumer that ran before its producer (KF-1) may also *raise* on the transient value
+                        # (e.g. a computed list index that is momentarily out of range)
+                        if prop != "C01":
+                            ex.count("stopped_on_kf1_exception")
+                            break
+                        raise Violation(prop + ".exception.gcyclic", "%s raised %s: %s during an update whose triggered tasks are cyclic in the public task graph"
+                                        % (op[0], type(st.exc).__name__, st.exc), exc=type(st.exc).__name__, g_cyclic_trig=True)
                     raise Violation(prop + ".exception", "%s raised %s: %s" % (op[0], type(st.exc).__name__, st.exc),
                                     exc=type(st.exc).__name__, g_cyclic=st.info.g_cyclic)
                 if st.info.trig:
@@ -166,6 +174,9 @@ class C03:
                 where = "after op %d (%s)" % (i, op[0])
                 # ---- (c) the same call on the fresh twin of the state before ----------
                 tr2, exc2 = run_traced(lambda: twin.apply(op))
+                if st.exc is not None and st.info.g_cyclic_trig:
+                    ex.count("stopped_on_kf1_exception")
+                    break
                 if st.exc is not None:
                     raise Violation(prop + ".exception", "%s: %s raised %s: %s (fresh manager: %s)"
                                     % (where, op[0], type(st.exc).__name__, st.exc,
@@ -776,6 +787,9 @@ class C12:
                 if st is None:
                     continue
                 where = "op %d (%s) after %d pickle restart(s)" % (i, op[0], restarts)
+                if st.exc is not None and st.info.g_cyclic_trig:
+                    ex.count("stopped_on_kf1_exception")
+                    break
                 if st.exc is not None:
                     raise Violation(prop + ".exception", "%s raised %s: %s" % (where, type(st.exc).__name__, st.exc))
                 if other is not None and other[0] == "mirror":
@@ -1020,6 +1034,9 @@ class C11:
                 if st is None:
                     continue
                 where = "op %d (%s) after %d restart(s)" % (i, op[0], restarts)
+                if st.exc is not None and st.info.g_cyclic_trig:
+                    ex.count("stopped_on_kf1_exception")
+                    break
                 if st.exc is not None:
                     raise Violation(prop + ".exception", "%s raised %s: %s" % (where, type(st.exc).__name__, st.exc))
                 if op[0] in ("sete", "inpl") and op[1] in ex.model.defs:
@@ -1404,6 +1421,10 @@ def gen_chain_case(ctx, run, prop):
     salt = "".join(r.choice("abcdefghijklmnopqrstuvwxyz0123456789") for _ in range(3))
     order = list(range(1, n + 1))
     how = r.choice(["shuffled", "reversed", "forward", "shuffled"])
+    if how == "reversed":
+        # every definition re-runs the whole chain below it: quadratic, keep it just above the recursion limit
+        n = min(n, r.randint(1050, 1300))
+        order = list(range(1, n + 1))
     if how == "shuffled":
         r.shuffle(order)
     elif how == "reversed":
